@@ -232,31 +232,195 @@ type jsSet struct {
 	name    string
 	handler string
 	instr   ssa.Instruction
+	guards  []Atom
 }
 
 func jsSetSites(fn *ssa.Function) []jsSet {
 	var out []jsSet
-	eachInstr(fn, func(in ssa.Instruction) {
-		cc := callCommon(in)
-		if cc == nil || calleeName(cc) != "(syscall/js.Value).Set" || len(cc.Args) < 3 {
-			return
+	for _, in := range jsInstalls(fn, 0) {
+		out = append(out, jsSet{in.name, in.handler, in.instr, in.guards})
+	}
+	return out
+}
+
+// handlerAlt is one value a handler expression can take, with what is known on the way to it.
+type handlerAlt struct {
+	kind   string // "fn", "nil", "param", "?"
+	name   string // method name (fn) or parameter name (param)
+	guards []Atom
+}
+
+// handlerAlts resolves a func-typed value to the methods it can stand for: a bound method, nil, a
+// parameter, or a phi of those, each alternative carrying the guards of the edge it arrives on.
+func handlerAlts(v ssa.Value, depth int) []handlerAlt {
+	if depth > 4 {
+		return []handlerAlt{{kind: "?"}}
+	}
+	switch x := v.(type) {
+	case *ssa.MakeInterface:
+		return handlerAlts(x.X, depth)
+	case *ssa.ChangeType:
+		return handlerAlts(x.X, depth)
+	case *ssa.MakeClosure:
+		if t := boundTarget(x); t != nil {
+			return []handlerAlt{{kind: "fn", name: t.Name()}}
 		}
-		name, ok := constString(cc.Args[1])
-		if !ok {
-			return
+	case *ssa.Const:
+		if x.IsNil() {
+			return []handlerAlt{{kind: "nil", name: "nil"}}
 		}
-		h := "?"
-		v := cc.Args[2]
-		if mi, ok := v.(*ssa.MakeInterface); ok {
-			v = mi.X
-		}
-		if call, ok := v.(*ssa.Call); ok && calleeName(&call.Call) == "syscall/js.FuncOf" && len(call.Call.Args) == 1 {
-			if t := boundTarget(call.Call.Args[0]); t != nil {
-				h = t.Name()
+	case *ssa.Parameter:
+		return []handlerAlt{{kind: "param", name: x.Name()}}
+	case *ssa.Phi:
+		var out []handlerAlt
+		for i, e := range x.Edges {
+			eg := guardsOnEdge(x.Block().Preds[i], x.Block())
+			for _, a := range handlerAlts(e, depth+1) {
+				a.guards = append(append([]Atom{}, eg...), a.guards...)
+				out = append(out, a)
 			}
 		}
-		out = append(out, jsSet{name, h, in})
+		return out
+	}
+	return []handlerAlt{{kind: "?", name: "?"}}
+}
+
+type jsInstall struct {
+	name      string // hook name, or "" when it is the parameter nameParam
+	nameParam string
+	handler   string
+	kind      string
+	guards    []Atom
+	instr     ssa.Instruction
+}
+
+// jsInstalls: every (hook, handler) pair fn can install, directly through
+// js.Global().Set(name, js.FuncOf(handler)) or through a module helper that does so with its own
+// parameters (`route(name, h)` where a nil h stands for the inert handler): the helper's
+// alternatives are instantiated with the arguments of each call.
+func jsInstalls(fn *ssa.Function, depth int) []jsInstall {
+	var out []jsInstall
+	eachInstr(fn, func(in ssa.Instruction) {
+		cc := callCommon(in)
+		if cc == nil {
+			return
+		}
+		here := guardsAt(in.Block())
+		if calleeName(cc) == "(syscall/js.Value).Set" && len(cc.Args) >= 3 {
+			inst := jsInstall{instr: in}
+			if name, ok := constString(cc.Args[1]); ok {
+				inst.name = name
+			} else if pa, ok := cc.Args[1].(*ssa.Parameter); ok {
+				inst.nameParam = pa.Name()
+			} else {
+				return
+			}
+			v := cc.Args[2]
+			if mi, ok := v.(*ssa.MakeInterface); ok {
+				v = mi.X
+			}
+			call, ok := v.(*ssa.Call)
+			if !ok || calleeName(&call.Call) != "syscall/js.FuncOf" || len(call.Call.Args) != 1 {
+				inst.handler, inst.kind, inst.guards = "?", "?", here
+				out = append(out, inst)
+				return
+			}
+			for _, a := range handlerAlts(call.Call.Args[0], 0) {
+				i2 := inst
+				i2.handler, i2.kind = a.name, a.kind
+				i2.guards = append(append([]Atom{}, here...), a.guards...)
+				out = append(out, i2)
+			}
+			return
+		}
+		callee := staticCallee(cc)
+		if callee == nil || callee == fn || depth > 1 || len(callee.Blocks) == 0 || callee.Pkg != fn.Pkg {
+			return
+		}
+		argOf := func(pname string) ssa.Value {
+			for i, pa := range callee.Params {
+				if pa.Name() == pname && i < len(cc.Args) {
+					return cc.Args[i]
+				}
+			}
+			return nil
+		}
+		for _, ci := range jsInstalls(callee, depth+1) {
+			if ci.nameParam == "" && ci.kind != "param" {
+				continue // the helper's own fixed installation: reported where the helper is examined
+			}
+			name := ci.name
+			if ci.nameParam != "" {
+				a := argOf(ci.nameParam)
+				if a == nil {
+					continue
+				}
+				n, ok := constString(a)
+				if !ok {
+					continue
+				}
+				name = n
+			}
+			// the handler parameter this alternative depends on, if any
+			hparam := ""
+			for _, pa := range callee.Params {
+				if _, isSig := pa.Type().Underlying().(*types.Signature); isSig {
+					for _, g := range ci.guards {
+						if g.L == pa.Name() && (g.R == "nil" || g.R == "nil:"+pa.Type().String()) {
+							hparam = pa.Name()
+						}
+					}
+					if ci.kind == "param" && ci.handler == pa.Name() {
+						hparam = pa.Name()
+					}
+				}
+			}
+			if hparam == "" {
+				out = append(out, jsInstall{name: name, handler: ci.handler, kind: ci.kind, guards: here, instr: in})
+				continue
+			}
+			arg := argOf(hparam)
+			if arg == nil {
+				continue
+			}
+			for _, a := range handlerAlts(arg, 0) {
+				// is this argument alternative consistent with what the helper tests on the parameter?
+				consistent := true
+				for _, g := range ci.guards {
+					if g.L != hparam || !strings.HasPrefix(g.R, "nil") {
+						continue
+					}
+					if (g.Op == "==" && a.kind == "fn") || (g.Op == "!=" && a.kind == "nil") {
+						consistent = false
+					}
+				}
+				if !consistent {
+					continue
+				}
+				i2 := jsInstall{name: name, handler: ci.handler, kind: ci.kind, instr: in}
+				if ci.kind == "param" {
+					i2.handler, i2.kind = a.name, a.kind
+				}
+				i2.guards = append(append([]Atom{}, here...), a.guards...)
+				out = append(out, i2)
+			}
+		}
 	})
+	return out
+}
+
+// flagMasks: the masks M of atoms `(f&M) op 0` among guards.
+func flagMasks(guards []Atom, op string) []int64 {
+	var out []int64
+	for _, g := range guards {
+		if g.Op != op || g.R != "0" || !strings.HasPrefix(g.L, "(f&") || !strings.HasSuffix(g.L, ")") {
+			continue
+		}
+		var m int64
+		if _, err := fmt.Sscanf(g.L[3:len(g.L)-1], "%d", &m); err == nil {
+			out = append(out, m)
+		}
+	}
 	return out
 }
 
@@ -275,34 +439,38 @@ func checkC19Mouse(c *Ctx, p *Prog) {
 		if !ok {
 			continue
 		}
-		guards := guardsAt(s.instr.Block())
+		guards := s.guards
 		gs := []string{}
 		for _, g := range guards {
 			gs = append(gs, g.String())
 		}
 		gtxt := strings.Join(gs, " ∧ ")
+		var all int64
+		for _, fl := range flags {
+			var m int64
+			fmt.Sscanf(fl, "%d", &m)
+			all |= m
+		}
 		if s.handler == "onMouseEvent" {
-			// must be under (f & FLAG) != 0 for one of the flags; for two flags the
-			// `||` form leaves no single dominating edge, so accept: the *unset*
+			// must be under (f & M) != 0 for a mask M made of the hook's flags only; the `||`
+			// form of two tests leaves no single dominating edge, so accept: the *unset*
 			// sibling is under the conjunction of both == 0 tests (checked below)
 			okg := false
-			for _, fl := range flags {
-				if hasAtom(guards, Atom{"(f&" + fl + ")", "!=", "0"}) {
+			for _, m := range flagMasks(guards, "!=") {
+				if m != 0 && m&^all == 0 {
 					okg = true
 				}
 			}
 			if len(flags) > 1 {
-				okg = okg || c19UnsetGuarded(fn, s.name, flags)
+				okg = okg || c19UnsetGuarded(fn, s.name, all)
 			}
 			c.Check(okg, "C19-R4", "enableMouse:"+s.name+"=onMouseEvent", p.pos(s.instr.Pos()), "guards: "+gtxt)
 		} else if s.handler == "unset" {
-			okg := true
-			for _, fl := range flags {
-				if !hasAtom(guards, Atom{"(f&" + fl + ")", "==", "0"}) {
-					okg = false
-				}
+			var zero int64
+			for _, m := range flagMasks(guards, "==") {
+				zero |= m
 			}
-			c.Check(okg, "C19-R4", "enableMouse:"+s.name+"=unset", p.pos(s.instr.Pos()), "guards: "+gtxt)
+			c.Check(zero&all == all, "C19-R4", "enableMouse:"+s.name+"=unset", p.pos(s.instr.Pos()), "guards: "+gtxt)
 		} else {
 			c.Fail("C19-R4", "enableMouse:"+s.name+"="+s.handler, p.pos(s.instr.Pos()), "unexpected handler")
 		}
@@ -381,16 +549,14 @@ func checkC19Mouse(c *Ctx, p *Prog) {
 }
 
 // c19UnsetGuarded: the `unset` sibling for hook is installed under all flags == 0.
-func c19UnsetGuarded(fn *ssa.Function, hook string, flags []string) bool {
+func c19UnsetGuarded(fn *ssa.Function, hook string, all int64) bool {
 	for _, s := range jsSetSites(fn) {
 		if s.name == hook && s.handler == "unset" {
-			g := guardsAt(s.instr.Block())
-			for _, fl := range flags {
-				if !hasAtom(g, Atom{"(f&" + fl + ")", "==", "0"}) {
-					return false
-				}
+			var zero int64
+			for _, m := range flagMasks(s.guards, "==") {
+				zero |= m
 			}
-			return true
+			return zero&all == all
 		}
 	}
 	return false
